@@ -300,9 +300,19 @@ def fit(ck, prog):
         elif c and c[1] in ("==", "!=") and dep(c[0]) and dep(c[2]):
             ck.ok(rule, inst3, iv.path, f"{iv.loc[0]}:{iv.loc[1]}", f"exact test {render(rt)[:80]}")
         else:
-            ck.violation(rule, inst3, iv.path, f"{iv.loc[0]}:{iv.loc[1]}",
-                         expected="|value - integer part| compared with a bound that is independent of the value (or an exact equality test)",
-                         found=f"returns `{render(rt)[:160]}`")
+            # `lo <= v && v <= hi && v.fract() == 0` lowers to control flow: the verdict is a phi of constants and one test;
+            # judge every comparison of the body instead
+            ivx = BodyCtx.of(iv)
+            tests = [(c.lhs, c.rel, c.rhs) for c in ivx.cmps]
+            alt_tests = [guards._cond(None, a) for a in (rt[2] if rt[0] == "phi" else ())]
+            tests += [t for t in alt_tests if t]
+            bad = [t for t in tests if t[1] in ("<", "<=", ">", ">=") and dep(t[0]) and dep(t[2])]
+            if tests and not bad:
+                ck.ok(rule, inst3, iv.path, f"{iv.loc[0]}:{iv.loc[1]}", f"{len(tests)} tests of the value against bounds independent of it")
+            else:
+                ck.violation(rule, inst3, iv.path, f"{iv.loc[0]}:{iv.loc[1]}",
+                             expected="|value - integer part| compared with a bound that is independent of the value (or an exact equality test)",
+                             found=f"returns `{render(rt)[:160]}`")
 
 
 def _mentions_local(b, o, l):
@@ -800,6 +810,9 @@ def is_valid_round_trips(ck, prog):
                  (s[0] == "cast" and len(s) >= 4 and s[3] == "FloatToInt" and any(is_self(x) for x in subterms(s[1]))) for s in subs)
         rng = any(s[0] == "call" and s[1].split("::")[-1] == "contains" for s in subs)
         cmps = [s for s in subs if s[0] == "bin" and s[1] in ("Lt", "Le", "Gt", "Ge")]
+        # range tests joined by `&&` are control flow, not part of the returned term: take the body's comparisons too
+        OPS = {"<": "Lt", "<=": "Le", ">": "Gt", ">=": "Ge"}
+        cmps += [("bin", OPS[c.rel], c.lhs, c.rhs) for c in BodyCtx.of(b).cmps if c.rel in OPS]
         direct = [s for s in cmps if is_self(s[2]) or is_self(s[3])]
         tol = [s for s in cmps if any(any(y[0] == "bin" and y[1] == "Sub" for y in subterms(side)) and any(is_self(y) for y in subterms(side))
                                       for side in (s[2], s[3]))]
